@@ -40,7 +40,17 @@ func Harness_C11_fieldsVsStd() {
 	rsaKey := derTLV(0x30, []byte{0x02, 0x03, 0x01, 0x00, 0x01}, []byte{0x02, 0x03, 0x01, 0x00, 0x01})
 	spki := derTLV(0x30, spkiAlg, derTLV(0x03, append([]byte{0x00}, rsaKey...)))
 	validity := derTLV(0x30, derTLV(0x17, []byte("250101000000Z")), derTLV(0x17, []byte("260101000000Z")))
-	tbs := derTLV(0x30, []byte{0xa0, 0x03, 0x02, 0x01, 0x02}, []byte{0x02, 0x01, serial}, sigAlg, issuer, validity, issuer, spki,
+	// the optional issuerUniqueID [1] / subjectUniqueID [2] members (RFC 5280 4.1.2.8) sit between the key and the extensions
+	var uids []byte
+	switch vChoice("unique-ids", 4) {
+	case 1:
+		uids = []byte{0x81, 0x03, 0x00, vU8("issuer-uid"), 0xfe}
+	case 2:
+		uids = []byte{0x82, 0x02, 0x00, vU8("subject-uid")}
+	case 3:
+		uids = []byte{0x81, 0x03, 0x00, 0xca, 0xfe, 0x82, 0x04, 0x00, 0x01, 0x02, 0x03}
+	}
+	tbs := derTLV(0x30, []byte{0xa0, 0x03, 0x02, 0x01, 0x02}, []byte{0x02, 0x01, serial}, sigAlg, issuer, validity, issuer, spki, uids,
 		derTLV(0xa3, derTLV(0x30, ku, bc)))
 	der := derTLV(0x30, tbs, sigAlg, derTLV(0x03, []byte{0x00, 0x30, 0x06, 0x02, 0x01, 0x01, 0x02, 0x01, 0x01}))
 	s, serr := stdx509.ParseCertificate(der)
@@ -54,6 +64,7 @@ func Harness_C11_fieldsVsStd() {
 	if f == nil {
 		return
 	}
+	vAssert(len(f.Extensions) == len(s.Extensions) && len(f.Extensions) == 2, "every extension is seen, also behind unique identifiers")
 	vAssert(int(f.KeyUsage) == int(s.KeyUsage), "KeyUsage bits as the standard library reports them (all nine)")
 	vAssert(f.IsCA == s.IsCA && f.BasicConstraintsValid == s.BasicConstraintsValid && f.MaxPathLen == s.MaxPathLen && f.MaxPathLenZero == s.MaxPathLenZero, "basic constraints as the standard library reports them")
 	vAssert(f.SerialNumber.Cmp(s.SerialNumber) == 0 && f.Version == s.Version, "serial and version")
